@@ -4,6 +4,7 @@ import (
 	"go/ast"
 	"go/token"
 	"go/types"
+	"math/big"
 
 	"lachk/core"
 )
@@ -92,9 +93,30 @@ func c05ForkPairs(c *core.Ctx) {
 		}
 		// the collection is the full list of one creator's branches: BranchIDByCreators[k] (not a sub-slice);
 		// k is returned as the variable (and its frame) that selects the creator
-		creatorOf := func(l *loopAt) (*c05Frame, *types.Var, bool) {
+		// the overlap test is symmetric (checked below), so the inner loop may also start right after the
+		// outer loop's index: unordered pairs, `for i := 0; …; for j := i + 1; …` over the same list
+		triangular := func(inner, outer *loopAt) bool {
+			fs, isFor := inner.it.Stmt.(*ast.ForStmt)
+			if !isFor || inner.fr != outer.fr || !inner.it.Counted || !outer.it.Counted || !outer.it.FromZero || outer.it.Index == nil {
+				return false
+			}
+			as, isAs := fs.Init.(*ast.AssignStmt)
+			if !isAs || len(as.Rhs) != 1 {
+				return false
+			}
+			g := inner.fr.F
+			lin := core.Linearize(g.Info(), as.Rhs[0], func(e ast.Expr) string {
+				if v := varOf(g, resolveLocal(g, e)); v != nil && v == outer.it.Index {
+					return "i"
+				}
+				return ""
+			})
+			one := big.NewInt(1)
+			return len(lin.Coef) == 1 && lin.Coef["i"] != nil && lin.Coef["i"].Cmp(one) == 0 && lin.C.Cmp(one) == 0
+		}
+		creatorOf := func(l *loopAt, tri bool) (*c05Frame, *types.Var, bool) {
 			it := l.it
-			if it.Coll == nil || !it.FromZero {
+			if it.Coll == nil || !(it.FromZero || tri) {
 				return nil, nil, false
 			}
 			cfr, coll := c05Resolve(l.fr, it.Coll)
@@ -135,8 +157,8 @@ func c05ForkPairs(c *core.Ctx) {
 				ok = l0 != nil && l1 != nil && (within(l0, l1) || within(l1, l0))
 				if ok {
 					// both loops range over all branches of the same creator
-					kf0, k0, full0 := creatorOf(l0)
-					kf1, k1, full1 := creatorOf(l1)
+					kf0, k0, full0 := creatorOf(l0, within(l1, l0) && triangular(l0, l1))
+					kf1, k1, full1 := creatorOf(l1, within(l0, l1) && triangular(l1, l0))
 					ok = full0 && full1 && kf0 == kf1 && k0 == k1
 				}
 			}
@@ -147,6 +169,35 @@ func c05ForkPairs(c *core.Ctx) {
 			c.Check(ok, "undetected forks are searched over every pair of the creator's branches", "T8 coverage (nested iterations over the same branch list, inlined view)", t.cond.Pos(),
 				"both operands of the overlap test range independently over all branches of the same creator",
 				"the overlap test in "+where+" does not cover every pair of the creator's branches (an operand is fixed or ranges over a sub-list): a fork between two side branches is missed, ForklessCause answers true although the ancestry shows a fork by that creator")
+			if !ok {
+				continue
+			}
+			// … and the scan really visits every pair: each of the two iterations may be left before its
+			// list is exhausted (break, goto, labelled continue, return) only on a path that has seen the
+			// overlap test succeed. A pair that is merely skipped has to go on with the next one.
+			l0, l1 := iterOf(t.fr, t.args[0]), iterOf(t.fr, t.args[1])
+			okExit, posExit, whyExit := true, t.cond.Pos(), ""
+			for _, l := range []*loopAt{l0, l1} {
+				if !okExit {
+					break
+				}
+				img, okImg := c05TestImage(t.fr, t.cond, l.fr)
+				if img == nil || !okImg {
+					okExit, posExit = false, l.it.Stmt.Pos()
+					whyExit = "the result of the overlap test cannot be related to the exits of the iteration in " + short(l.fr.F.Name) + " (a helper on the way returns something other than the test)"
+					continue
+				}
+				if path, early := c05EarlyExit(l.it, img); early {
+					okExit, posExit = false, posOf(path[len(path)-1])
+					if !posExit.IsValid() {
+						posExit = l.it.Stmt.Pos()
+					}
+					whyExit = "the iteration over the creator's branches in " + short(l.fr.F.Name) + " can be left before all pairs were tested although no overlap was found (" + l.fr.F.DescribePath(path) + ")"
+				}
+			}
+			c.Check(okExit, "the pair scan ends early only when an overlap was found", "T8 coverage (CFG: exits of the two iterations, guarded by the test)", posExit,
+				"every exit of either iteration other than exhaustion lies behind the true edge of the overlap test",
+				whyExit+": the pairs after that point are never compared, so a fork between two later branches of the creator is missed (which pairs come later depends on the order in which the branches were created, i.e. on the indexing order), and ForklessCause answers true although the ancestry shows a fork by that creator")
 		}
 		// the test is symmetric: MinSeq(a) <= Seq(b) && MinSeq(b) <= Seq(a)
 		for _, t := range tests {
